@@ -53,9 +53,11 @@ def gen_file(r, fid, helper=None):
     if r.random() < 0.25:
         err = r.choice(["type-error", "runtime-error", "syntax-error", "unknown-name", "fail-expression"])
         err_at = r.randint(0, n)
+    pre = None
     for i in range(n + 1):
         if err is not None and err_at == i:
-            lines.append({"type-error": "let bad = 1 + \"s\";\n", "runtime-error": "let badf = func (t) => t.nope;\nlet bad = badf({a = 1});\n",
+            pre = {"ok": list(ok_ids), "fail": list(fail_ids), "malformed": malformed}
+            lines.append({"type-error": "let bad = 1 + \"s\";\n", "runtime-error": "let badl = [1, 2];\nlet bad = badl.(seven);\n",
                           "syntax-error": "let bad = ;\n", "unknown-name": "let bad = nosuchname;\n",
                           "fail-expression": "let bad = fail \"stop here\";\n"}[err])
         if i == n:
@@ -93,7 +95,7 @@ def gen_file(r, fid, helper=None):
             lines.append("assert {ok = true, desc = seven};\n")
             malformed += 1
     truth = {"pass": err is None and not fail_ids and malformed == 0, "ids_ok": ok_ids, "ids_fail": fail_ids, "malformed": malformed,
-             "build_error": err, "err_at": err_at, "n": n}
+             "build_error": err, "err_at": err_at, "n": n, "pre": pre}
     return "".join(lines), truth
 
 
@@ -184,6 +186,16 @@ def judge_run(tp, names, order, truths, res, files, argv=None, alone_ref=None):
         if v["err"] and t["malformed"] and t["build_error"] is None:
             # a malformed assertion that the type checker sees is reported as a build error: a failure either way
             res.count("malformed-assertion-rejected-statically")
+        elif t["build_error"] in ("runtime-error", "unknown-name", "fail-expression") and t.get("pre") and t["pre"]["malformed"] == 0 \
+                and t["malformed"] == 0 and not any("Type error" in l for l in secs[name]):
+            # the build fails at run time: the assertions evaluated before the failing statement are logged, the others not
+            exp_ok, exp_fail = sorted(t["pre"]["ok"]), sorted(t["pre"]["fail"])
+            if sorted(v["ok_ids"]) != exp_ok or sorted(v["notok_ids"]) != exp_fail:
+                res.violation(["assertion-log", "assertions-before-a-build-error", ctx], witness,
+                              {"file": name, "expected_ok": exp_ok, "expected_not_ok": exp_fail, "logged_ok": v["ok_ids"], "logged_not_ok": v["notok_ids"],
+                               "section": secs[name][-10:]})
+                return None
+            res.count("log-before-build-error-ok")
         elif t["build_error"] is None:
             exp_ok, exp_fail = sorted(t["ids_ok"]), sorted(t["ids_fail"])
             if sorted(v["ok_ids"]) != exp_ok or sorted(v["notok_ids"]) != exp_fail:
@@ -262,6 +274,7 @@ def truth_from_text(text):
     """recompute the truth of a stored file from its text (the generator's forms are recognisable)"""
     ok, fail, mal = [], [], 0
     err = None
+    pre = None
     for l in text.split("\n"):
         m = re.match(r'^assert \{ok = (true|seven == 7), desc = "([^"]+)"\};$', l)
         if m:
@@ -277,9 +290,12 @@ def truth_from_text(text):
             continue
         if l.startswith("assert "):
             mal += 1
-        if l.startswith("let bad"):
-            err = "error"
-    return {"pass": err is None and not fail and mal == 0, "ids_ok": ok, "ids_fail": fail, "malformed": mal, "build_error": err}
+        if l.startswith("let bad = ") and err is None:
+            err = {"let bad = badl.(seven);": "runtime-error", "let bad = nosuchname;": "unknown-name",
+                   "let bad = fail \"stop here\";": "fail-expression"}.get(l, "error")
+            pre = {"ok": list(ok), "fail": list(fail), "malformed": mal}
+    return {"pass": err is None and not fail and mal == 0, "ids_ok": ok, "ids_fail": fail, "malformed": mal, "build_error": err,
+            "pre": pre if err else None}
 
 
 def check_witness(w):
